@@ -567,6 +567,7 @@ func nextToken(in []byte) (*token, error) {
 	}
 
 	foundSpace := false
+	quoted := false
 
 loop:
 	for len(left) > 0 {
@@ -596,6 +597,7 @@ loop:
 			}
 			cur.Text = append(cur.Text, t...)
 			left = left[n:]
+			quoted = true
 		case '\\':
 			left = left[1:]
 			if len(left) == 0 {
@@ -616,11 +618,11 @@ loop:
 		}
 	}
 
-	if len(cur.Text) == 0 {
+	if len(cur.Text) == 0 && !quoted {
 		return nil, nil
 	}
 
-	if foundSpace && cur.Text[0] == '(' {
+	if foundSpace && len(cur.Text) > 0 && cur.Text[0] == '(' {
 		cur.Text = cur.Text[:1]
 		cur.Input = in[:1]
 	} else {
